@@ -1,14 +1,104 @@
 package main
 
 import (
+	"encoding/json"
+	"fmt"
+	"os"
+	osexec "os/exec"
+	"path/filepath"
+	"strings"
+
 	"govc/vc"
 )
 
-// genReplay: placeholder until the model-to-test generator is in place.
-func genReplay(r *propRun, s *vc.ObSummary, rep map[string]any) {
-	rep["replay_note"] = "no model-to-test translation for this obligation kind yet"
+// scenario replays: for obligations about monitors (schedules) the counterexample is a state of the
+// shared object, not an input; the replay is a scheduled scenario written once per obligation under
+// /verif/scenarios/<property>/<obligation>.go and run against the real code through `go test -overlay`.
+// The scenario fails iff the real code reaches a state that violates the obligation.
+
+func scenarioFile(prop, ob string) string {
+	return filepath.Join(verifRoot, "scenarios", prop, sanitizeFile(ob)+".go")
 }
 
+// genReplay attaches a replay to a failed obligation when one is available.
+func genReplay(r *propRun, s *vc.ObSummary, rep map[string]any) {
+	sf := scenarioFile(r.cfg.ID, s.Ob)
+	if b, err := os.ReadFile(sf); err == nil {
+		pkgDir := pkgDirOf(r, s)
+		rep["test_source"] = string(b)
+		rep["test_name"] = "TestGovcReplay"
+		rep["package_dir"] = pkgDir
+		rep["replay_kind"] = "scheduled scenario built from the solver's counterexample state (" + sf + ")"
+		out, failed, err := runOverlayTest(pkgDir, "TestGovcReplay", string(b))
+		rep["replay_output"] = tail(out, 4000)
+		if err != nil {
+			rep["replay_error"] = err.Error()
+		}
+		rep["reproduced"] = failed && err == nil
+		return
+	}
+	if genModelReplay(r, s, rep) {
+		return
+	}
+	rep["replay_note"] = "no replay available for this obligation: the verifier's output is attached"
+}
+
+func pkgDirOf(r *propRun, s *vc.ObSummary) string {
+	// obligation names start with the short package name; find the loaded package with that name
+	short := s.Ob
+	if i := strings.Index(short, "."); i >= 0 {
+		short = short[:i]
+	}
+	for _, pk := range r.prog.Pkgs {
+		if pk.Name == short || strings.HasSuffix(pk.PkgPath, "/"+short) {
+			if len(pk.GoFiles) > 0 {
+				return filepath.Dir(pk.GoFiles[0])
+			}
+		}
+	}
+	return ""
+}
+
+func tail(s string, n int) string {
+	if len(s) > n {
+		return s[len(s)-n:]
+	}
+	return s
+}
+
+// runOverlayTest runs an in-package test against the real code without writing into /repo.
+// failed = the test ran and failed (the obligation is violated by the real code).
 func runOverlayTest(pkgDir, testName, src string) (string, bool, error) {
-	return "", false, nil
+	if pkgDir == "" {
+		return "", false, fmt.Errorf("package directory unknown")
+	}
+	work, err := os.MkdirTemp(filepath.Join(verifRoot, ".work"), "replay")
+	if err != nil {
+		_ = os.MkdirAll(filepath.Join(verifRoot, ".work"), 0o755)
+		work, err = os.MkdirTemp(filepath.Join(verifRoot, ".work"), "replay")
+		if err != nil {
+			return "", false, err
+		}
+	}
+	defer os.RemoveAll(work)
+	tf := filepath.Join(work, "govc_replay_test.go")
+	if err := os.WriteFile(tf, []byte(src), 0o644); err != nil {
+		return "", false, err
+	}
+	ov := map[string]any{"Replace": map[string]string{filepath.Join(pkgDir, "govc_replay_test.go"): tf}}
+	ob, _ := json.Marshal(ov)
+	ovf := filepath.Join(work, "overlay.json")
+	_ = os.WriteFile(ovf, ob, 0o644)
+	cmd := osexec.Command("go", "test", "-overlay", ovf, "-vet=off", "-count=1", "-timeout", "60s", "-run", "^"+testName+"$", ".")
+	cmd.Dir = pkgDir
+	cmd.Env = vc.GoEnv()
+	out, err := cmd.CombinedOutput()
+	s := string(out)
+	if err == nil {
+		return s, false, nil
+	}
+	if strings.Contains(s, "--- FAIL") || strings.Contains(s, "panic:") {
+		return s, true, nil
+	}
+	return s, false, fmt.Errorf("go test did not run the replay: %v", err)
 }
